@@ -11,7 +11,7 @@ TABLE = [
     ("tsp", None, 3, 4), ("atsp", None, 3, 4), ("cvrp", None, 3, 4), ("sdvrp", None, 2, 3), ("op", None, 2, 3), ("pctsp", None, 2, 3),
     ("spctsp", None, 2, 3), ("pdp", "free", 2, 4), ("pdp", "depot", 2, 4), ("mtsp", "minmax", 3, 4), ("mtsp", "sum", 3, 4),
     ("svrp", None, 3, 4), ("cvrptw", None, 3, 3),
-] + [("mtvrp", v, 3, 3) for v in ("", "OTW", "BL", "OBLTW")]
+] + [("mtvrp", v, 3, 3) for v in ("", "OTW", "BL", "OBLTW")] + [("flp", None, 3, 3), ("mcp", None, 2, 2), ("dpp", None, 4, 4), ("mdpp", None, 4, 4)]
 TABLE_T = [("mtvrp", v, 3, 3) for v in ("O", "B", "L", "TW", "OB", "OL", "BTW", "LTW", "OBL", "OBTW", "OLTW", "BLTW")]
 
 
@@ -25,7 +25,8 @@ def plan(tier, seed):
                     continue
                 jobs.append({"id": f"C04:{spec}[{variant}] n={n} B={B} row={pos}", "module": "vf.episodes", "func": "independence_job",
                              "params": dict(spec=spec, variant=variant, n=n, B=B, pos=pos)})
-        pairs.append((spec, variant, nq + 2))
+        if spec not in ("dpp", "mdpp"):
+            pairs.append((spec, variant, nq + 2))
     return {
         "jobs": jobs, "torch_requests": CF.rollout_requests(pairs, seed, B=3), "level": "model_checking",
         "bounds": "per job: n nodes, B rows (row under test at every position), T = step bound; all instance data and all actions of all rows symbolic; solo run = B=1 with the same actions",
